@@ -78,6 +78,8 @@ type Case struct {
 	Conc *Conc `json:"conc,omitempty"`
 	// race child (race.go, thorough tier): this many generated concurrent cases under the race detector
 	Race int `json:"race,omitempty"`
+	// scripted interleaving (script.go): two operations on the same deposits meet inside a call
+	Script *Script `json:"script,omitempty"`
 }
 
 type OpObs struct {
@@ -98,6 +100,12 @@ type Obs struct {
 	Final   []Entry   `json:"final,omitempty"`
 	Stray   int       `json:"stray,omitempty"`
 	Race    *RaceObs  `json:"race,omitempty"`
+	// scripted interleavings: the operations in the order in which they completed (Ops: what each did),
+	// whether the main operation reached its parking point and whether the intruder completed while the
+	// main operation was parked
+	Linear  []Op `json:"linear,omitempty"`
+	Parked  bool `json:"parked,omitempty"`
+	Between bool `json:"between,omitempty"`
 }
 
 // ---- fault-injecting key-value store ----------------------------------------------------------
@@ -431,6 +439,9 @@ func run(c Case) Obs {
 	if c.Race > 0 {
 		return runRace(c)
 	}
+	if c.Script != nil {
+		return runScript(c)
+	}
 	kv := &faultKV{m: map[string][]byte{}, faults: c.Faults}
 	for _, e := range c.Init {
 		kv.m[fmt.Sprintf(store.KEY, e.Src, e.Dst, e.Nonce)] = []byte(e.Status)
@@ -615,6 +626,8 @@ func gen(r *vgen.Rng, tier string) []Case {
 	}
 	// 5. goroutines sharing one PropStore (conc.go)
 	out = append(out, genConcCases(r, mult)...)
+	// 6. two operations on the same deposits meeting inside a call (script.go)
+	out = append(out, genScripts(r, mult)...)
 	if tier == "thorough" {
 		out = append(out, Case{Class: "race", Race: 150})
 	}
@@ -684,6 +697,9 @@ func coq(c Case, o Obs) string {
 	if c.Race > 0 {
 		return coqRace(o)
 	}
+	if c.Script != nil {
+		return coqScript(c, o)
+	}
 	obs := make([]string, len(c.Ops))
 	for i := range c.Ops {
 		obs[i] = coqObs(c.Ops[i], o.Ops[i])
@@ -709,6 +725,9 @@ func main() {
 			// non-trivial: some operation made at least one store call (something was looked up or written)
 			if c.Race > 0 {
 				return o.Race != nil && o.Race.Ran
+			}
+			if c.Script != nil {
+				return o.Parked // the main operation reached the store call at which the other one is let in
 			}
 			if c.Conc != nil {
 				busy := 0
@@ -737,6 +756,6 @@ func main() {
 			return false
 		},
 		ShardSize: 150,
-		Rule:      "retried blocks of 0..8 deposits (mixed resources, destinations, stored statuses) through each of the five retry paths with no fault, a fault at each store-call index in turn, and fault pairs; deliveries with a fault at each call index followed by deliveries/completions that need the mutex; released proposals executed twice with success and failure in both orders; random histories of 1..40 retry/deliver/exec-ok/exec-fail operations with random fault schedules; concurrent cases: 2..8 goroutines, each with its own list of 3..10 operations on its own deposit keys (plus shared executed keys and shared non-pending keys that only retries name), its own fault schedule, on ONE PropStore over a backend that uses key and value only after a scheduling point (Gosched / channel hand-off / sleep), under GOMAXPROCS 1, 2, 4 or 16, with one BTC executor per goroutine or one for all; thorough tier: 150 more of them in a child built with the race detector; distinct = distinct input JSON; non-trivial = at least one operation looks a proposal up in the store (concurrent: at least two goroutines do)",
+		Rule:      "retried blocks of 0..8 deposits (mixed resources, destinations, stored statuses) through each of the five retry paths with no fault, a fault at each store-call index in turn, and fault pairs; deliveries with a fault at each call index followed by deliveries/completions that need the mutex; released proposals executed twice with success and failure in both orders; random histories of 1..40 retry/deliver/exec-ok/exec-fail operations with random fault schedules; concurrent cases: 2..8 goroutines, each with its own list of 3..10 operations on its own deposit keys (plus shared executed keys and shared non-pending keys that only retries name), its own fault schedule, on ONE PropStore over a backend that uses key and value only after a scheduling point (Gosched / channel hand-off / sleep), under GOMAXPROCS 1, 2, 4 or 16, with one BTC executor per goroutine or one for all; thorough tier: 150 more of them in a child built with the race detector; scripted interleavings: after a prefix history two operations that take the executor's mutex (a delivery's admission, the end - executed / failed - of an older or newer execution of the same proposals, another delivery) are made by two goroutines on ONE executor and store, the first parked before / after each of its store calls in turn while the second is started (1..3 proposals; plus random prefix / pair / parking point / suffix); distinct = distinct input JSON; non-trivial = at least one operation looks a proposal up in the store (concurrent: at least two goroutines do; scripted: the first operation reached its parking point)",
 	})
 }
